@@ -153,12 +153,13 @@ func Run(c *ev.Ctx) {
 	e1, cells1 := runFilter(c)
 	e2, cells2 := runExpiry(c)
 	e3, cells3 := runACLObjects(c)
+	c.Set("blocked_queries_woken_by_a_write", runBlockingFlags(c))
 	c.Set("evaluations", e1+e2+e3)
 	c.Set("filter_evaluations", e1)
 	c.Set("expiry_resolutions", e2)
 	c.Set("acl_object_query_match_evaluations", e3)
 	c.Set("distinct_nontrivial", len(cells1)+len(cells2)+len(cells3))
-	c.Set("rule", "filtering: for every generated response type, every arrangement (with repetition, length<=k) of {readable, node-denied, service-denied, both-denied, id-public/name-secret, id-secret/name-public, node-level} elements x 4 real policy authorizers; the in-place filter result must equal the out-of-place filter by the type's read rule, and the filtered flag must be set exactly when something was removed. expiry: token expiry {none, t+10s} x resolution path {RPC+cache, server-local} x down policy x RPC health x every non-decreasing sequence of <=3 resolve instants from {0,5s,15s,40s} under a shifted clock. ACL objects / prepared queries / intention match: every list length or arrangement (<=k) x 5 authorizers (acl write, acl read, query+intention prefix, deny, manage) against the documented per-element rule incl. secret redaction, unnamed queries and the no-write-through rule. distinct_nontrivial = distinct (type, authorizer, kept count) and (expiry grid cell, outcome) cells")
+	c.Set("rule", "filtering: for every generated response type, every arrangement (with repetition, length<=k) of {readable, node-denied, service-denied, both-denied, id-public/name-secret, id-secret/name-public, node-level} elements x 4 real policy authorizers; the in-place filter result must equal the out-of-place filter by the type's read rule, and the filtered flag must be set exactly when something was removed. expiry: token expiry {none, t+10s} x resolution path {RPC+cache, server-local} x down policy x RPC health x every non-decreasing sequence of <=3 resolve instants from {0,5s,15s,40s} under a shifted clock. ACL objects / prepared queries / intention match: every list length or arrangement (<=k) x 5 authorizers (acl write, acl read, query+intention prefix, deny, manage) against the documented per-element rule incl. secret redaction, unnamed queries and the no-write-through rule. distinct_nontrivial = distinct (type, authorizer, kept count) and (expiry grid cell, outcome) cells. blocking: for KVS.List/ListKeys, Catalog.ListNodes/ServiceNodes, Health.ServiceNodes, Internal.NodeDump on a Server value with ACLs on: a query blocked on the current index is woken by the write that removes the last unreadable element (or adds the first one) and must answer like a fresh query (data and filtered flag)")
 	c.Sample(map[string]any{"universe": universe, "restricted_policy": restricted})
 	c.Assume("the clock seen by package consul and agent/structs is shifted through the vtime import rewrite; async-cache refreshes run in background goroutines and are not scheduled by the harness")
 }
